@@ -463,7 +463,7 @@ func (b *c8BB) block(k int, etag []byte, szx, num int, more bool, plen int) {
 	b.ops = append(b.ops, c8Op{kind: 'W', fref: k, code: 69, etag: etag, hasB2: true, szx: szx, num: num, more: more, typ: b.typ(), tag: b.tag, plen: plen})
 }
 
-func (b *c8BB) cancel(id, code int)       { b.ops = append(b.ops, c8Op{kind: 'C', id: id, code: code}) }
+func (b *c8BB) cancel(id, code int)        { b.ops = append(b.ops, c8Op{kind: 'C', id: id, code: code}) }
 func (b *c8BB) cancelErr(id int, how byte) { b.ops = append(b.ops, c8Op{kind: 'X', id: id, how: how}) }
 
 // the fixed scenarios: a block-wise notification (seq 10) is overtaken by a newer one (seq 11) while it
